@@ -186,6 +186,8 @@ type GenOptions struct {
 	// IgnoreAvoid lists avoid constraints that do not apply to this profile (it cannot
 	// reach the trigger of the finding they belong to, e.g. it has no incremental history)
 	IgnoreAvoid []string
+	// ExtraAvoid lists constraints the profile adds on its own: the narrowed form of one it lifts.
+	ExtraAvoid []string
 	// ValueOverrides replaces the value list of a key (focus profiles)
 	ValueOverrides map[string][]string
 	// InitialGlobal is merged into the initial global ConfigMap
@@ -427,6 +429,100 @@ func (g *gen) sanitize(o client.Object) {
 				if !taken[r.Host+"#"+p.Path] {
 					keep = append(keep, p)
 					taken[r.Host+"#"+p.Path] = true // also inside one ingress
+				}
+			}
+			r.HTTP.Paths = keep
+		}
+	}
+	if g.opt.Avoid["dup_paths_exclusive_service"] {
+		// The narrowed form of no_dup_paths (KF-owner-change-existing-backend needs the new owner's
+		// backend to exist already): a host/path may be declared twice as long as the service behind
+		// every declaration of a duplicated path is used by nothing else, so that an owner change
+		// always creates the new owner's backend. spec.defaultBackend stays unique.
+		svcOf := func(p networking.HTTPIngressPath) string {
+			if p.Backend.Service == nil {
+				return ""
+			}
+			return p.Backend.Service.Name + ":" + p.Backend.Service.Port.Name + fmt.Sprint(p.Backend.Service.Port.Number)
+		}
+		claims := map[string][]string{} // host#path -> services of the other ingresses' declarations
+		uses := map[string]int{}        // ns-local service -> number of declarations in other ingresses of the namespace
+		otherDefault := false
+		for k, o := range g.objs[KIngress] {
+			if k == key {
+				continue
+			}
+			oi := o.(*networking.Ingress)
+			if oi.Spec.DefaultBackend != nil {
+				otherDefault = true
+				if oi.Namespace == ing.Namespace && oi.Spec.DefaultBackend.Service != nil {
+					uses[oi.Spec.DefaultBackend.Service.Name+":"+oi.Spec.DefaultBackend.Service.Port.Name+fmt.Sprint(oi.Spec.DefaultBackend.Service.Port.Number)] += 2
+				}
+			}
+			for _, r := range oi.Spec.Rules {
+				if r.HTTP == nil {
+					continue
+				}
+				for _, p := range r.HTTP.Paths {
+					claims[r.Host+"#"+p.Path] = append(claims[r.Host+"#"+p.Path], oi.Namespace+"/"+svcOf(p))
+					if oi.Namespace == ing.Namespace {
+						uses[svcOf(p)]++
+					}
+				}
+			}
+		}
+		if ing.Spec.DefaultBackend != nil && otherDefault {
+			ing.Spec.DefaultBackend = nil
+		}
+		// services that back a declaration of a path somebody else declares too must stay exclusive
+		exclusive := map[string]bool{}
+		for hp, svcs := range claims {
+			if len(svcs) > 1 {
+				for _, s := range svcs {
+					exclusive[s] = true
+				}
+			}
+			_ = hp
+		}
+		own := map[string]int{}
+		if ing.Spec.DefaultBackend != nil && ing.Spec.DefaultBackend.Service != nil {
+			own[ing.Spec.DefaultBackend.Service.Name+":"+ing.Spec.DefaultBackend.Service.Port.Name+fmt.Sprint(ing.Spec.DefaultBackend.Service.Port.Number)] += 2
+		}
+		for _, r := range ing.Spec.Rules {
+			if r.HTTP != nil {
+				for _, p := range r.HTTP.Paths {
+					own[svcOf(p)]++
+				}
+			}
+		}
+		seen := map[string]bool{}
+		for i := range ing.Spec.Rules {
+			r := &ing.Spec.Rules[i]
+			if r.HTTP == nil {
+				continue
+			}
+			var keep []networking.HTTPIngressPath
+			for _, p := range r.HTTP.Paths {
+				hp := r.Host + "#" + p.Path
+				sv := svcOf(p)
+				ok := !seen[hp] && !exclusive[ing.Namespace+"/"+sv]
+				if ok && len(claims[hp]) > 0 {
+					// a second declaration: one other claimant at most, and both services used by nothing else
+					ok = len(claims[hp]) == 1 && uses[sv] == 0 && own[sv] == 1
+					if ok {
+						o := claims[hp][0]
+						if i := strings.Index(o, "/"); i >= 0 && o[:i] == ing.Namespace {
+							ok = uses[o[i+1:]] == 1 && own[o[i+1:]] == 0
+						} else {
+							ok = false // the other claimant's namespace is not counted here
+						}
+					}
+				}
+				if ok {
+					keep = append(keep, p)
+					seen[hp] = true
+				} else {
+					own[sv]--
 				}
 			}
 			r.HTTP.Paths = keep
@@ -881,6 +977,16 @@ func GenerateRun(seed uint64, opt GenOptions) (*World, []Op) {
 		}
 		for _, k := range g.opt.IgnoreAvoid {
 			delete(av, k)
+		}
+		g.opt.Avoid = av
+	}
+	if len(g.opt.ExtraAvoid) > 0 {
+		av := map[string]bool{}
+		for k, v := range g.opt.Avoid {
+			av[k] = v
+		}
+		for _, k := range g.opt.ExtraAvoid {
+			av[k] = true
 		}
 		g.opt.Avoid = av
 	}
